@@ -1,3 +1,4 @@
 import FlodymGen.Subscripts
 import FlodymGen.GaussLobatto
 import FlodymGen.Constants
+import FlodymGen.IOSites
